@@ -27,12 +27,17 @@ CATALOGUE = {
     # sparse resolutions: gaps wider than stretch * max_shrink (level selection between the levels)
     'Gsparse': dict(ul=False, bbox=(0, 0, 2000, 2000), tw=2, th=2, res=(1000, 100, 50)),
 }
+# grids for single harnesses (not part of the catalogue that C02 / C03 / C04 enumerate)
+MORE_GRIDS = {
+    # large tiles: several requests next to each other inside the same tiles (reprojected requests, harness/c01.py)
+    'Gbig': dict(ul=False, bbox=(0, 0, 1280, 1280), tw=16, th=16, res=(80, 40, 20)),
+}
 SN, SD = 5, 4          # stretch factor 1.25 (dyadic: exact in the exact regime)
 MS = 4                 # max shrink factor
 
 
 def spec_grid(name):
-    g = CATALOGUE[name]
+    g = CATALOGUE[name] if name in CATALOGUE else MORE_GRIDS[name]
     return dict(ul=g['ul'], bbox=list(g['bbox']), tw=g['tw'], th=g['th'], res=list(g['res']), sn=SN, sd=SD, ms=MS,
                 thr=list(g.get('thr', ())), sf=False, so=False)
 
